@@ -7,7 +7,43 @@ NOT_APPLICABLE = {
     'C07': 'decided by library code outside the reach of the encoder: etree character escaping, exclusive c14n, RSA/ECDSA signing and verification, AES/OAEP, and the encoding/xml tokenizer (DESIGN.md section 6)',
 }
 
+SP_ASSERTION_NOTE = ('struct-level: the real validateAssertion on an arbitrary unmarshalled Assertion (all optional elements nil-able, '
+                     '0..K SubjectConfirmations and AudienceRestrictions, K=2 quick / 3 thorough), arbitrary strings, instants (ms resolution inside the '
+                     'message, ns for the clock), tolerances in [0,2^62), 0..2 outstanding IDs, AllowIDPInitiated and the audience hook on/off. ')
+
 CHECKS = {
+    'C02': {
+        'level_text': 'z3 decides, for all instants and tolerances at once, that acceptance implies every documented window and that strictly-inside implies acceptance, on the SSA of the real validateAssertion; counterexamples replayed natively.',
+        'level_note': SP_ASSERTION_NOTE + 'Response-level IssueInstant and lexical time forms are covered by the flow harness where registered; time.Parse is library code (outside).',
+        'harnesses': [
+            {'name': 'Harness_C02_assertion', 'pkg': 'saml', 'replay': 'direct', 'must_reach': ['accepted', 'rejected', 'accepted-two-confirmations'],
+             'opts': {'time_res': 1000000}, 'quick': {'K': 2}, 'thorough': {'K': 3}},
+        ],
+    },
+    'C03': {
+        'level_text': 'z3 decides that acceptance implies issuer = IdP entity ID, every Recipient = ACS URL and the audience rule (entity-ID fallback, hook) for all strings at once; replayed natively.',
+        'level_note': SP_ASSERTION_NOTE,
+        'harnesses': [
+            {'name': 'Harness_C03_assertion', 'pkg': 'saml', 'replay': 'direct', 'must_reach': ['accepted', 'rejected', 'accepted-with-audience'],
+             'opts': {'time_res': 1000000}, 'quick': {'K': 2}, 'thorough': {'K': 3}},
+        ],
+    },
+    'C04': {
+        'level_text': 'z3 decides that, without IdP-initiated login, acceptance implies every confirmation InResponseTo is one of the outstanding IDs (and that some ID is outstanding); replayed natively.',
+        'level_note': SP_ASSERTION_NOTE,
+        'harnesses': [
+            {'name': 'Harness_C04_assertion', 'pkg': 'saml', 'replay': 'direct', 'must_reach': ['accepted', 'rejected', 'accepted-with-confirmation'],
+             'opts': {'time_res': 1000000}, 'quick': {'K': 2}, 'thorough': {'K': 3}},
+        ],
+    },
+    'C09': {
+        'level_text': 'every path of the encoded message-consuming functions is explored with all optional elements nil-able; a path ending in a Go panic is a violation; replayed natively.',
+        'level_note': SP_ASSERTION_NOTE,
+        'harnesses': [
+            {'name': 'Harness_C09_assertion', 'pkg': 'saml', 'replay': 'direct', 'must_reach': ['returned'],
+             'opts': {'time_res': 1000000, 'panic_is_violation': True}, 'quick': {'K': 2}, 'thorough': {'K': 3}},
+        ],
+    },
     'C10': {
         'level_text': 'stripPadding(appendPadding(p,bs)) = p decided by z3 for every plaintext content of every length 0..4*bs+1, bs in {8,16}, on the SSA of the real functions; counterexamples replayed natively.',
         'level_note': 'bounds: plaintext length 0..4*bs+1 case-split, contents symbolic; no stubs on this kernel. Outside: longer plaintexts; the cipher/key-transport layers (being added).',
